@@ -121,7 +121,7 @@ func runAll(repo, verif string) int {
 		func() {
 			defer func() {
 				if r := recover(); r != nil {
-					c.Undecided("internal", "analyser panic", fmt.Sprint(r))
+					c.Fail("internal", "analyser panic", "", fmt.Sprint(r))
 				}
 			}()
 			props.All[id](c)
@@ -163,7 +163,7 @@ func run(id, tier, repo, verif string) (code int) {
 	func() {
 		defer func() {
 			if r := recover(); r != nil {
-				c.Undecided("internal", "analyser panic", fmt.Sprint(r))
+				c.Fail("internal", "analyser panic", "", fmt.Sprint(r))
 			}
 		}()
 		fn(c)
